@@ -3,7 +3,7 @@
 From Coq Require Import List NArith ZArith Bool String.
 From ApiFu Require Import Base.Sexp.
 From ApiFu Require Syn.Ast Vld.Ast Val.Values ExeA.ArgData ExeA.ArgArgs ExeA.ArgModel ExeA.ArgSpec ExeA.ArgHyps.
-From ApiFu Require Vld.ValidatorModel Pipe.CostCompose Pipe.SubscribeCompose Pipe.InvariantProofs Pipe.InvariantBridge.
+From ApiFu Require Vld.ValidatorModel Pipe.CostCompose Pipe.SubscribeCompose Pipe.InvariantProofs Pipe.InvariantBridge Pipe.TextBound Pipe.Corollaries.
 From ApiFu Require Import Pipe.PipelineModel Pipe.PipelineProofs Pipe.Convert Pipe.Compose Pipe.SchemaAgree Pipe.ComposeProofs Pipe.ComposeCheck.
 Import ListNotations.
 Open Scope string_scope.
@@ -189,6 +189,32 @@ Example ex_sub_event :
   pipeline_model ex_VS_sub [] ex_ES_sub (n "subscription { f(k: 2) }") [] [] ex_W
   = PExecuted (Some (ExeA.ArgData.JObj [ (n "f", ExeA.ArgData.JInt 20) ])) [].
 Proof. vm_compute. reflexivity. Qed.
+
+(** the whole subscription: two events — the world of the examples, and an event without the field's
+    entry (the resolver fails: a null with an error) *)
+Example ex_subscribe_pipeline :
+  exists r2,
+  Pipe.Corollaries.subscribe_pipeline Vld.ValidatorModel.id_order ex_VS_sub [] ex_ES_sub (n "subscription { f(k: 2) }") [] [] ex_W
+                                      [ex_W; ExeA.ArgData.OObj (n "Query") []]
+  = Pipe.Corollaries.SPStream (int_ 20) [PExecuted (Some (ExeA.ArgData.JObj [ (n "f", ExeA.ArgData.JInt 20) ])) []; r2]
+  /\ Pipe.Corollaries.event_ok r2 = true.
+Proof. eexists. split; vm_compute; reflexivity. Qed.
+Example ex_subscribe_pipeline_refused :
+  Pipe.Corollaries.subscribe_pipeline Vld.ValidatorModel.id_order ex_VS_sub [] ex_ES_sub (n "{ i }") [] [] ex_W [ex_W]
+  = Pipe.Corollaries.SPRefused (Pipe.SubscribeCompose.SubError []).
+Proof. vm_compute. reflexivity. Qed.
+
+(** the length bound of C03_pipeline_response is satisfiable, and the glue over the composed stages
+    computes *)
+Example ex_text_short : Pipe.TextBound.text_short (n "{ i o { i } }").
+Proof. vm_compute. reflexivity. Qed.
+Example ex_glue_composed :
+  execute (Pipe.Corollaries.parse_verdict (n "{ i nn }"))
+          (Pipe.Corollaries.validate_verdict Vld.ValidatorModel.id_order ex_VS [] (n "{ i nn }"))
+          (Pipe.Corollaries.exec_verdict Vld.ValidatorModel.id_order ex_VS [] ex_ES (n "{ i nn }") [] [] ex_W)
+  = Resp {| has_data := true; data_null := true; nerrors := 1 |}      (* nn: nil at a non-null type *)
+  /\ Pipe.Corollaries.parse_verdict (n "{ i ") = Returned 1%nat.
+Proof. split; vm_compute; reflexivity. Qed.
 
 (** ** round 1: the glue over stage verdicts *)
 Example executed_with_field_error :
